@@ -43,6 +43,29 @@ def run_both(game, mods):
     return out
 
 
+def run_history(game, mods, order):
+    """the same clauses for a solve that FOLLOWS another one: one StochasticGame object on the caller's own lists (no copy in
+    between), solved in the modes of `order`; -> (dict mode -> outcome of the LAST solve in that mode, the lists after the history)"""
+    tad = mods['tad']
+    work = copy.deepcopy(game)
+    out = {}
+    try:
+        sg = tad.StochasticGame(**work, prune_states=order[0])
+    except BaseException as e:   # noqa
+        return {p: ('err', e, None) for p in (True, False)}, work
+    for prune in order:
+        cap = Capture(tad)
+        cap.obj = sg
+        try:
+            r = timed(lambda: cap.solve(None, prune), 5)
+            out[prune] = ('ok', r, cap.lists)
+        except Timeout:
+            out[prune] = ('timeout', None, None)
+        except BaseException as e:   # noqa
+            out[prune] = ('err', e, cap.lists)
+    return out, work
+
+
 def minprob(tl, players):
     return min([p for s, ts in enumerate(tl) if players[s] == PR for p, _ in ts] + [1])
 
@@ -117,17 +140,32 @@ def check_reach_only(game, mods):
     return F
 
 
-def check_solve(game, mods):
+def check_solve_history(game, mods):
+    """every clause of check_solve must also hold for a solve that follows other solves of the same object / the same lists"""
+    F = []
+    for order in ((True, False), (False, True), (True, True, False)):
+        F += check_solve(game, mods, order)
+        if F:
+            break
+    return F
+
+
+def check_solve(game, mods, order=None):
     """returns list of (properties, clause, message)"""
     F = []
+    hist = '' if order is None else f'[after solving the same object on the same lists in modes {list(order)}] '
 
     def fail(props, clause, msg):
-        F.append((props, clause, msg))
+        F.append((props, clause, hist + msg))
     players, tl, rewards, finals = game['players'], game['transition_list'], game['rewards'], game['final_states']
     n = len(players)
     fin = set(finals)
     before = copy.deepcopy(game)
-    res = run_both(game, mods)
+    work = game
+    if order is None:
+        res = run_both(game, mods)
+    else:
+        res, work = run_history(game, mods, order)
     cr = can_reach(tl, fin)
     vs, conv = vstar(game)
     acyc = is_acyclic(tl)
@@ -139,7 +177,8 @@ def check_solve(game, mods):
         elif kind == 'err':
             e = res[prune][1]
             if not (isinstance(e, ValueError) and NOSOL in str(e) and prune):
-                fail({'C06'}, 'no-other-error', f'solve(prune={prune}) raised {type(e).__name__}: {e}')
+                # a legal stopping game for which solve produces no result at all: every property that states what solve reports fails with it
+                fail({'C06', 'C01', 'C02', 'C03', 'C04', 'C05', 'C14'}, 'no-other-error', f'solve(prune={prune}) raised {type(e).__name__}: {e}')
     okF = res[False][0] == 'ok'
     okT = res[True][0] == 'ok'
     if okF:
@@ -218,7 +257,10 @@ def check_solve(game, mods):
                     fail({'C05'}, 'final-strategy', tag + f'state {s}: reported {fs[s]!r}, arg-opt over the conditioned transitions is {exp!r}')
         # ---- C14 (acyclic games with single-action final strategies and no reward ties)
         abs_finals = all(len(tl[f]) == 1 and tl[f][0][1] == f for f in fin)      # C14's domain: final states absorbing
-        if acyc and abs_finals:
+        # cyclic games: the induced chain is evaluated by iterating to convergence (skipped when it does not converge); the
+        # comparison is then only as tight as the solver's own stopping rule allows on chains that contract by >= 0.1 per step
+        if abs_finals and (acyc or minprob(tl, players) >= 0.1):
+            tol14 = 1e-6 if acyc else 1e-3
             single = all(fs[s] is None or len(fs[s]) == 1 for s in scope)
             noties = True
             for s in scope:
@@ -230,7 +272,9 @@ def check_solve(game, mods):
                 # chain induced by the final strategies in the conditioned game
                 pr = [1.0 if s in fin else 0.0 for s in range(n)]
                 rw = [0.0] * n
-                for _ in range(n + 2):
+                settled = acyc
+                for _ in range(n + 2 if acyc else 20000):
+                    prev14 = (list(pr), list(rw))
                     for s in range(n):
                         if s not in scope or not ctl[s]:
                             continue
@@ -247,12 +291,15 @@ def check_solve(game, mods):
                             else:
                                 cands = [rw[t] for a, t in ctl[s] if a in rs[s]]
                                 rw[s] = rewards[s] + min(cands)
-                for s in sorted(scope):
+                    if not acyc and all(abs(a - b) <= 1e-13 * max(1, abs(a)) for x, y in zip(prev14, (pr, rw)) for a, b in zip(x, y) if math.isfinite(a) and math.isfinite(b)):
+                        settled = True
+                        break
+                for s in (sorted(scope) if settled else []):
                     if s in fin and not (len(ctl[s]) == 1 and ctl[s][0][1] == s):
                         continue
-                    if abs(erm[s] - pr[s]) > 1e-6:
+                    if abs(erm[s] - pr[s]) > tol14:
                         fail({'C14'}, 'prob-under-min-reward', tag + f'state {s}: reported {erm[s]!r}, induced chain reaches a final state with probability {pr[s]!r}')
-                    if math.isfinite(rw[s]) and abs(emr[s] - rw[s]) > 1e-6 * max(1, abs(rw[s])):
+                    if math.isfinite(rw[s]) and abs(emr[s] - rw[s]) > tol14 * max(1, abs(rw[s])):
                         fail({'C14'}, 'reward-under-min-reach', tag + f'state {s}: reported {emr[s]!r}, induced expected reward {rw[s]!r}')
     # ---- C01/C04: identical with pruning on or off
     if okF and okT:
@@ -261,8 +308,8 @@ def check_solve(game, mods):
         if res[True][1][1] != res[False][1][1]:
             fail({'C04'}, 'prune-independent', f'reachability strategies differ between modes: {res[True][1][1]!r} vs {res[False][1][1]!r}')
     # ---- C10: description intact, repeatable
-    if game != before:
-        fail({'C10'}, 'description-intact', f'solve changed the description: {before!r} -> {game!r}')
+    if game != before or work != before:
+        fail({'C10'}, 'description-intact', f'solve changed the description: {before!r} -> {work!r}')
     return F
 
 
